@@ -6,6 +6,7 @@ from __future__ import annotations
 
 import hashlib
 import json
+import os
 import traceback
 import uuid
 from collections import Counter
@@ -30,6 +31,7 @@ from . import model as M
 from .exprs import build_expr, build_pred, expr_cols, expr_udfs, pred_cols, pred_udfs, pred_trivial
 from .interp import InterpError, interp
 from .monitors import MON, install
+from .ops_extra import ExtraOps, live_leaf_ids
 from .tags import NONKEY
 from .world import SimIOError, SimRows, World, children, needs_processing, shape, walk, walk_live
 
@@ -75,7 +77,7 @@ def is_injected(e: BaseException, fired) -> bool:
     return False
 
 
-class Run:
+class Run(ExtraOps):
     def __init__(self, scenario: dict, profile, armed=frozenset(), count_mode=False):
         self.sc = scenario
         self.profile = profile
@@ -97,6 +99,11 @@ class Run:
         self.fingerprints = {}
         self.payload_ledger = {}   # id(node) -> (node, token)
         self.name_history = []
+        self.mat_evals = Counter()
+        self.mat_entries = {}
+        self.ill_routes = set()
+        self.in_recovery = False
+        self.commute_matrix = Counter()
         self._uuid_orig = uuid.uuid4
         rng = self.w.rng
         uuid.uuid4 = lambda: uuid.UUID(int=rng.getrandbits(128), version=4)
@@ -119,8 +126,7 @@ class Run:
         return hashlib.sha256(json.dumps(self.log, sort_keys=True, default=str).encode()).hexdigest()
 
     def violate(self, kind, detail, entry=None, op=None, exc=None):
-        prop = self.profile.claims.get(kind)
-        v = {"kind": kind, "property": prop, "op_index": self.w.op_index, "detail": detail}
+        v = {"kind": kind, "property": None, "op_index": self.w.op_index, "detail": detail}
         if exc is not None:
             v["exc_type"] = type(exc).__name__
             v["exc_msg"] = str(exc)[:300]
@@ -128,6 +134,7 @@ class Run:
         if entry is not None:
             v["tree"] = str(entry.rel)[:400]
             v["hist"] = M.hist_shape(entry.mv.hist)
+        prop = v["property"] = self.profile.claim(kind, entry, self, v)
         from .known import recognise
 
         fid = recognise(self, v, entry, exc)
@@ -137,7 +144,7 @@ class Run:
             base = fid.rstrip("~")
             if entry is not None:
                 entry.taint.add(base)
-            if base in self.armed or not self.profile.known_gate:
+            if base in self.armed or not self.profile.known_gate or os.environ.get('RELSIM_NOGATE'):
                 self.known_hits[base] += 1
                 self.logev("known", kind, base)
                 return
@@ -158,6 +165,13 @@ class Run:
                 MON.active = False
                 self.w.fault.disarm()
                 self.cross_counts.append(dict(self.w.fault.counts))
+                if self.w.fault.fired and op["k"] in self.profile.recover_kinds:
+                    # bounded liveness: once faults stop, the same call succeeds and is correct
+                    self.stats["recoveries"] += 1
+                    self.w.fault.begin_op(None)
+                    self.in_recovery = True
+                    handler(op)
+                    self.in_recovery = False
                 self.after_op(op)
                 if len(self.violations) >= 8:
                     break
@@ -250,16 +264,61 @@ class Run:
             self.violate(kind, {"op": op, "phase": "construct"}, entry=ent, exc=e)
             self.logev(i, op["k"], "exception", type(e).__name__)
             return self.alias(op, parents[0], "exception")
+        MON.active = False
         if must_raise is not None:
             ent = Entry(rel, parents[0].mv, op, parents)
             self.violate("order_loss_missing", {"op": op}, entry=ent)
-        mv = model_fn()
+        mv = model_fn(rel)
         ent = Entry(rel, mv, op, parents)
         ent.events |= MON.events
         self.pool.append(ent)
         self.logev(i, op["k"], "ok", str(rel), list(mv.cols))
         self.check_new(ent, op, parents)
         return ent
+
+    def _umodel(self, t, op, rel, f):
+        """Model of a unary factory call, given the engine the result actually lives in."""
+        v = t.mv
+        eng = rel.engine.name
+        pe = op.get("pe")
+        if eng != v.engine:
+            if not (pe is not None and eng == pe and op.get("tr")):
+                self.violate("engine_mismatch", {"expected": v.engine, "got": eng, "op": op},
+                             entry=Entry(rel, v, op, [t]))
+            else:
+                self.probes["flag_transfer_used"] += 1
+            v = M.m_xfer(v, eng)
+        elif pe is not None and pe != v.engine and op.get("tr") and not op.get("bt", True) and not self._is_noop(t, op):
+            self.violate("transfer_flag_ignored", {"expected": pe, "got": eng, "op": op}, entry=Entry(rel, v, op, [t]))
+        if op.get("rq") and pe is not None and pe != t.mv.engine and not op.get("tr") and not self._is_noop(t, op):
+            before, after = self._opcount(t.rel), self._opcount(rel)
+            extra = {e: after[e] - before.get(e, 0) for e in after if e != pe and after[e] > before.get(e, 0)}
+            self.probes["require_flag_accepted"] += 1
+            if extra:
+                self.violate("require_flag_violated", {"op": op, "new_operations_outside_preferred": extra},
+                             entry=Entry(rel, v, op, [t]))
+        return f(v)
+
+    @staticmethod
+    def _opcount(rel):
+        c = Counter()
+        for n in walk(rel):
+            if isinstance(n, (UnaryOperationRelation, BinaryOperationRelation)):
+                c[n.engine.name] += 1
+        return c
+
+    @staticmethod
+    def _is_noop(t, op):
+        k = op["k"]
+        if k == "proj":
+            return set(op["cols"]) == set(t.mv.cols)
+        if k == "sort":
+            return not op["terms"]
+        if k == "sel":
+            return pred_trivial(op["p"]) is True
+        if k == "slice":
+            return op["start"] == 0 and op["stop"] is None
+        return False
 
     # ------------------------------------------------------------- evaluation
     def evaluate(self, ent, reverse=None, via=None):
@@ -317,11 +376,18 @@ class Run:
         ent.evaluated = True
         self.stats["evaluations"] += 1
         sqlroot = isinstance(ent.rel.engine, sql.Engine)
+        allowed = live_leaf_ids(ent.rel)
+        starts0 = self.leaf_starts()
+        ncalls = len(w.processor.calls)
+        mat_before = {n.name: w.token(n.payload) for n in walk(ent.rel) if isinstance(n, Materialization)}
         try:
             rows, out = self.evaluate(ent)
         except Exception as e:  # noqa
+            self.check_hook_calls(ent, w.processor.calls[ncalls:], mat_before)
             self.on_exec_exception(ent, e)
             return None
+        self.check_hook_calls(ent, w.processor.calls[ncalls:], mat_before)
+        self.check_hidden_leaves(ent, starts0, allowed)
         ok = self.check_rows(ent, rows)
         self.check_bounds(ent, len(rows))
         if out is not ent.rel:
@@ -354,7 +420,7 @@ class Run:
             phase = "database"
         elif "iteration/" in s:
             phase = "iterate"
-        self.violate("exec_exception", {"phase": phase}, entry=ent, exc=e)
+        self.violate("no_recovery" if self.in_recovery else "exec_exception", {"phase": phase}, entry=ent, exc=e)
         self.logev(self.w.op_index, "exec", "exception", type(e).__name__, phase)
 
     # ------------------------------------------------------- new-entry checks
@@ -408,18 +474,8 @@ class Run:
         self.factory(
             op, [t],
             lambda: t.rel.with_calculated_column(tags[op["tag"]], build_expr(op["e"], tags), **self.flags(op)),
-            lambda: self._eng(M.m_calc(t.mv, op["tag"], op["e"], pe, bt), op),
+            lambda rel: self._umodel(t, op, rel, lambda v: M.m_calc(v, op["tag"], op["e"], pe, bt)),
         )
-
-    def _eng(self, mv, op):
-        """transfer=True => result lives in the preferred engine (C03d)."""
-        pe = op.get("pe")
-        if pe is not None and op.get("tr") and pe != mv.engine:
-            # model: content unchanged, engine = preferred... unless backtracking succeeded,
-            # in which case the result stays in the current engine.  Marked for check_new.
-            mv = mv.derive()
-            mv.hist = mv.hist + (("maybe_engine", pe),)
-        return mv
 
     def op_proj(self, op):
         t = self.ref(op["t"])
@@ -435,7 +491,7 @@ class Run:
         self.factory(
             op, [t],
             lambda: t.rel.with_only_columns({tags[c] for c in want}, **self.flags(op)),
-            lambda: self._eng(M.m_proj(t.mv, want, pe, bt), op),
+            lambda rel: self._umodel(t, op, rel, lambda v: M.m_proj(v, want, pe, bt)),
         )
 
     def op_sel(self, op):
@@ -449,7 +505,7 @@ class Run:
         self.factory(
             op, [t],
             lambda: t.rel.with_rows_satisfying(build_pred(op["p"], tags), **self.flags(op)),
-            lambda: self._eng(M.m_sel(t.mv, op["p"], pe, bt), op),
+            lambda rel: self._umodel(t, op, rel, lambda v: M.m_sel(v, op["p"], pe, bt)),
         )
 
     def op_dedup(self, op):
@@ -462,7 +518,7 @@ class Run:
         self.factory(
             op, [t],
             lambda: t.rel.without_duplicates(**self.flags(op)),
-            lambda: self._eng(M.m_dedup(t.mv, pe, bt), op),
+            lambda rel: self._umodel(t, op, rel, lambda v: M.m_dedup(v, pe, bt)),
         )
 
     def op_sort(self, op):
@@ -479,7 +535,7 @@ class Run:
         self.factory(
             op, [t],
             lambda: t.rel.sorted([SortTerm(build_expr(e, tags), bool(asc)) for e, asc in terms], **self.flags(op)),
-            lambda: self._eng(M.m_sort(t.mv, terms, pe, bt), op),
+            lambda rel: self._umodel(t, op, rel, lambda v: M.m_sort(v, terms, pe, bt)),
         )
 
     def op_slice(self, op):
@@ -489,7 +545,7 @@ class Run:
         start, stop = op["start"], op["stop"]
         if start < 0 or (stop is not None and stop < start):
             return self.alias(op, t, "illtyped")
-        self.factory(op, [t], lambda: t.rel[start:stop], lambda: M.m_slice(t.mv, start, stop))
+        self.factory(op, [t], lambda: t.rel[start:stop], lambda rel: M.m_slice(t.mv, start, stop))
 
     # ----------------------------------------------------------------- binary
     def _order_loss_required(self, *ents):
@@ -501,8 +557,10 @@ class Run:
             return
         if l.mv.cols != r.mv.cols or l.mv.engine != r.mv.engine:
             return self.alias(op, l, "illtyped")
+        if len(l.mv.up()) + len(r.mv.up()) > 120:
+            return self.alias(op, l, "too-big")
         must = RelationalAlgebraError if self._order_loss_required(l, r) else None
-        self.factory(op, [l, r], lambda: l.rel.chain(r.rel), lambda: M.m_chain(l.mv, r.mv), must_raise=must)
+        self.factory(op, [l, r], lambda: l.rel.chain(r.rel), lambda rel: M.m_chain(l.mv, r.mv), must_raise=must)
 
     def op_join(self, op):
         l, r = self.ref(op["l"]), self.ref(op["r"])
@@ -514,6 +572,8 @@ class Run:
         p = op.get("p")
         if p is not None and not pred_cols(p) <= (set(l.mv.cols) | set(r.mv.cols)):
             return self.alias(op, l, "illtyped")
+        if len(l.mv.up()) * len(r.mv.up()) > 300:
+            return self.alias(op, l, "too-big")
         tags = self.w.tags
         kw = {}
         if "bt" in op:
@@ -526,7 +586,7 @@ class Run:
         self.factory(
             op, [l, r],
             lambda: l.rel.join(r.rel, build_pred(p, tags) if p is not None else None, **kw),
-            lambda: M.m_join(l.mv, r.mv, p),
+            lambda rel: self._jmodel(l, r, p, op, rel),
             must_raise=must,
         )
 
@@ -537,17 +597,22 @@ class Run:
             return
         must = RelationalAlgebraError if self._order_loss_required(t) else None
         name = op.get("name")
-        self.factory(
+        ent = self.factory(
             op, [t],
             lambda: t.rel.materialized(name) if name is not None else t.rel.materialized(),
-            lambda: M.m_mat(t.mv, name), must_raise=must,
+            lambda rel: M.m_mat(t.mv, name), must_raise=must,
         )
+        if ent is not None:
+            for n in walk(ent.rel):
+                if isinstance(n, Materialization):
+                    self.mat_entries.setdefault(n.name, ent)
+                    break
 
     def op_xfer(self, op):
         t = self.ref(op["t"])
         if t is None:
             return
-        self.factory(op, [t], lambda: t.rel.transferred_to(self.w.engines[op["to"]]), lambda: M.m_xfer(t.mv, op["to"]))
+        self.factory(op, [t], lambda: t.rel.transferred_to(self.w.engines[op["to"]]), lambda rel: M.m_xfer(t.mv, op["to"]))
 
     # -------------------------------------------------------------- execution
     def op_run(self, op):
